@@ -27,6 +27,14 @@ Definition run_check (n : netlist) (c : sx) : res sx :=
                                      end) atts;
       do exp <- sx_listof sx_expected exp;
       Ok (L [A "C04"; fails_to_sx (chk_C04 n {| gr_m := m; gr_n := nn; gr_att := atts |} exp)])
+  | L [A "C06"; links; cnt] =>
+      do links <- sx_listof (fun x => match x with
+                                      | L [A a; A b; pa; pb] => do pa <- sx_opt sx_Z pa; do pb <- sx_opt sx_Z pb;
+                                                                Ok (a, b, (pa, pb))
+                                      | _ => Err "link expected"
+                                      end) links;
+      do cnt <- sx_nat cnt;
+      Ok (L [A "C06"; fails_to_sx (chk_C06 n links cnt)])
   | L [A "C07"; names] => do names <- sx_listof sx_str names; Ok (L [A "C07"; fails_to_sx (chk_C07 n names)])
   | _ => Err "unknown check"
   end.
